@@ -201,7 +201,7 @@ MANIFEST = dict(
     claimed=True,
     level_text=("Bounded symbolic model checking with a variational-inequality oracle: at every tolerance stop of bounded runs of "
                 "the real AndersonCD, GramCD and ProxNewton drivers on convex compositions (arbitrary warm start = any state, and "
-                "cold-start (2,1) runs; dense and CSC; both strategies; with/without intercept), for all y, alpha, tol, weights, "
+                "cold-start (2,1) runs; dense and CSC; default 'subdiff' strategy; with/without intercept) and of MultiTaskBCD with one task, for all y, alpha, tol, weights, "
                 "the one-sided directional derivative of the true objective -- the real value() code on dual numbers -- is >= "
                 "-tol along every signed coordinate and intercept direction; by convexity the returned point then satisfies "
                 "F(v) >= F(w) - tol*||v-w||_1 against EVERY competitor v, i.e. it is tol-optimal and all solvers stopping on the "
